@@ -170,6 +170,33 @@ theorem state_machine_safety {cfg : Config} (hnd : cfg.voterIds.Nodup) {s s' : A
   have h1 := committed_stable hnd hr hfrom (hi.commit_ok a).2
   exact committed_comparable hnd hr' h1 (hi'.commit_ok b).2
 
+/-- **What a node has applied is never rewritten**: between a state and any later state in
+    which the node's commit index is at least what it was, the log prefix up to the old commit
+    index is unchanged (no truncation at or below the commit index, across any steps of any
+    nodes, crashes included). -/
+theorem applied_prefix_stable {cfg : Config} (hnd : cfg.voterIds.Nodup) {s s' : AState} (hr : Reachable cfg s)
+    (hfrom : ReachableFrom cfg s s') (n : Nat) (hmono : (s.nodes n).commit ≤ (s'.nodes n).commit) :
+    (s'.nodes n).log.take (s.nodes n).commit = (s.nodes n).log.take (s.nodes n).commit := by
+  have hi := inv_reachable hnd hr
+  have hi' := inv_reachable hnd (reachable_trans hr hfrom)
+  have hc := (hi.commit_ok n).1
+  have hc' := (hi'.commit_ok n).1
+  have hlen : ((s.nodes n).log.take (s.nodes n).commit).length = (s.nodes n).commit := by
+    rw [List.length_take]; omega
+  have hlen' : ((s'.nodes n).log.take (s'.nodes n).commit).length = (s'.nodes n).commit := by
+    rw [List.length_take]; omega
+  have hpre : (s.nodes n).log.take (s.nodes n).commit <+: (s'.nodes n).log.take (s'.nodes n).commit := by
+    rcases state_machine_safety hnd hr hfrom n n with h | h
+    · exact h
+    · have hle := h.length_le
+      have heq : ((s'.nodes n).log.take (s'.nodes n).commit).length = ((s.nodes n).log.take (s.nodes n).commit).length := by omega
+      rw [List.prefix_iff_eq_take] at h
+      rw [heq, List.take_length] at h
+      rw [h]; exact List.prefix_refl _
+  rw [List.prefix_iff_eq_take, hlen, List.take_take] at hpre
+  rw [Nat.min_eq_left hmono] at hpre
+  exact hpre.symm
+
 /-- **A committed prefix is never lost**: it is a prefix of the log of every leader elected
     afterwards in a later term than its witness (C04 durability, C07 completeness). -/
 theorem committed_in_later_leaders {cfg : Config} (hnd : cfg.voterIds.Nodup) {s : AState} (hr : Reachable cfg s)
